@@ -73,7 +73,7 @@ static int do_block(KSI_CTX *ctx, KSI_BlockSigner *bs, int n, unsigned seed0, in
 		KSI_DataHash_free(h);
 		KSI_MetaData_free(m);
 	}
-	res = KSI_BlockSigner_closeAndSign(bs);
+	res = (n & 1) ? KSI_BlockSigner_close(bs, NULL) : KSI_BlockSigner_closeAndSign(bs);    /* the older name of the same call for odd blocks */
 	vf_count("impl_calls", 1);
 	if (res != KSI_OK) { vf_fail("close-and-sign", "%s: closeAndSign failed 0x%x with %d leaves", what, res, n); ok = 0; }
 	for (i = 0; i < n && ok; i++) {
@@ -91,6 +91,18 @@ static int do_block(KSI_CTX *ctx, KSI_BlockSigner *bs, int n, unsigned seed0, in
 		if (res != KSI_OK) vf_fail("leaf-signature-invalid", "%s: signature of leaf %d/%d does not verify for its hash: 0x%x", what, i, n, res);
 		if (KSI_Signature_serialize(sig, &raw, &rl) != KSI_OK) vf_fail("unserializable", "leaf signature cannot be serialized");
 		else {
+			/* asking the same handle again gives the same signature */
+			KSI_Signature *again = NULL;
+			unsigned char *raw2 = NULL;
+			size_t rl2 = 0;
+			KSI_BlockSignerHandle *r2 = hd[i];
+			res = KSI_BlockSignerHandle_getSignature(r2, &again);
+			vf_count("impl_calls", 1);
+			if (res != KSI_OK || again == NULL || KSI_Signature_serialize(again, &raw2, &rl2) != KSI_OK || rl2 != rl || memcmp(raw, raw2, rl) != 0)
+				vf_fail("leaf-signature-not-repeatable", "%s: second request for the signature of leaf %d: 0x%x, %zu bytes (first time %zu bytes)", what, i, res, rl2, rl);
+			KSI_free(raw2); KSI_Signature_free(again);
+		}
+		if (raw != NULL) {
 			rsig parsed;
 			rs_verdict v;
 			if (rs_parse(raw, rl, &parsed) != 0) vf_fail("leaf-signature-not-wellformed", "%s: leaf %d signature not understood by the reference parser", what, i);
